@@ -573,9 +573,9 @@ pub fn extra_action(w: &mut World, kind: &str) -> Option<Action> {
             })
         }
         "bad_join" => {
-            let variant = w.prng.below(3);
+            let variant = w.prng.below(6);
             let n = w.parties.len();
-            let q = if variant == 1 {
+            let q = if matches!(variant, 1 | 3 | 4) {
                 let inv: Vec<usize> = (0..n).filter(|p| w.mem_ref(*p, g).map(|m| m.welcome.is_some()).unwrap_or(false)).collect();
                 if inv.is_empty() { w.prng.usize_below(n) } else { *w.prng.pick(&inv) }
             } else {
